@@ -69,6 +69,7 @@ void _ZNSt14overflow_errorD1Ev(uint8_t* t) {}
 /* std::ios_base::failure (thrown by the stream classes in streams.h / serialize.h): message and error_code not modelled */
 void _ZNSt8ios_base7failureB5cxx11C1EPKcRKSt10error_code(uint8_t* t, uint8_t* s, uint8_t* ec) {}
 void _ZNSt8ios_base7failureB5cxx11C1ERKNSt7__cxx1112basic_stringIcSt11char_traitsIcESaIcEEERKSt10error_code(uint8_t* t, uint8_t* s, uint8_t* ec) {}
+void _ZNSt8ios_base7failureB5cxx11C1ERKNSt7__cxx1112basic_stringIcSt11char_traitsIcESaIcEEE(uint8_t* t, uint8_t* s) {}
 void _ZNSt8ios_base7failureB5cxx11D1Ev(uint8_t* t) {}
 static uint8_t verif_iostream_category_obj[16];
 uint8_t* _ZSt17iostream_categoryv(void) { return verif_iostream_category_obj; }
@@ -89,6 +90,14 @@ unsigned __int128 verif_fshr(unsigned __int128 a, unsigned __int128 b, unsigned 
    Over-allocation is unobservable for the code under test (no out-of-bounds/leak checks are claimed). */
 static uint8_t* verif_alloc(uint64_t n) {
   uint8_t* p;
+#if defined(__CPROVER__) && defined(VERIF_ALLOC_MAX)
+  /* harness opt-in (spec: cbmc=['-D', 'VERIF_ALLOC_MAX=32']): every untyped allocation is ASSERTED to be <= VERIF_ALLOC_MAX bytes, so the
+     large size classes (whose byte-wise updates dominate the formula on infeasible reallocation paths) need not exist. Sound: a feasible larger
+     allocation fails the assertion. */
+  __CPROVER_assert(n <= VERIF_ALLOC_MAX, "allocation within the harness's declared VERIF_ALLOC_MAX"); __CPROVER_assume(n <= VERIF_ALLOC_MAX);
+  if (n <= 32 || VERIF_ALLOC_MAX <= 32) p = malloc(32); else if (n <= 128 || VERIF_ALLOC_MAX <= 128) p = malloc(128); else p = malloc(VERIF_ALLOC_MAX);
+  MODEL_ASSUME(p != 0); return p;
+#endif
   if (n <= 32) p = malloc(32); else if (n <= 128) p = malloc(128); else if (n <= 1024) p = malloc(1024); else p = malloc(n);
   MODEL_ASSUME(p != 0); return p; }
 uint8_t* _Znwm(uint64_t n) { return verif_alloc(n); }
